@@ -193,6 +193,17 @@ Theorem C28_buffer_mutators_linearizable :
          (hist bop (option Buffer.out) tr).
 Proof. exact (fun fc fp limN limS => buffer_mutators_linearizable fc fp limN limS checked_table C28_buffer_table_check). Qed.
 
+(* re-entrancy: no callback written as a function literal at a construction site of one of the objects calls back
+   into the object it is given to (regenerated by lockscan over the whole repository; callbacks supplied from
+   elsewhere — cb_external — are covered only by the hypothesis of the instances) *)
+Theorem C28_callbacks_not_reentrant : forallb cb_ok callback_table = true.
+Proof. vm_compute. reflexivity. Qed.
+
+Example C28_callback_sites_found :
+  existsb (fun r => String.eqb (cb_object r) "EventsBuffer" && N.ltb 0 (cb_literals r)) callback_table = true /\
+  existsb (fun r => String.eqb (cb_object r) "Cache" && N.ltb 0 (cb_literals r)) callback_table = true.
+Proof. vm_compute. split; reflexivity. Qed.
+
 (* DataSemaphore, including the blocking Acquire (Cond.Wait loop), over model/Semaphore.v (C30) *)
 Theorem C28_semaphore_table_check : tk_check skeys sk_readonly checked_table = true.
 Proof. vm_compute. reflexivity. Qed.
@@ -349,6 +360,7 @@ Print Assumptions C28_flushable_linearizable.
 Print Assumptions C28_flushable_race_free.
 Print Assumptions C28_buffer_table_check.
 Print Assumptions C28_buffer_mutators_linearizable.
+Print Assumptions C28_callbacks_not_reentrant.
 Print Assumptions C28_semaphore_table_check.
 Print Assumptions C28_semaphore_linearizable.
 Print Assumptions C28_semaphore_race_free.
